@@ -17,6 +17,7 @@ from .. import gf2, irx, mode
 from ..irx import Lf, is_word
 
 ROUNDS = 20
+AUXPHIS = {}
 ST = ("arg", 0)
 POSN = (48, 4)
 
@@ -103,10 +104,10 @@ class Handler(mode.Handler):
         return None
 
 
-def make_exec(f, starts=None, arg_consts=None, pre=(), inline=None, handler=None):
+def make_exec(f, starts=None, arg_consts=None, pre=(), inline=None, handler=None, peel=(), head_consts=None):
     return irx.Exec(f, handler or Handler(inline), havoc="auto", auto=True, split_max=16, starts=starts, arg_consts=arg_consts,
                     int_cells=lambda ob, off, n: ob == ST and (off, n) == POSN,
-                    callee_writes={"tinyjambu_permutation_256": {0: (0, 16)}}, pre_conds=pre)
+                    callee_writes={"tinyjambu_permutation_256": {0: (0, 16)}}, pre_conds=pre, peel=peel, head_consts=head_consts)
 
 
 def posn_starts():
@@ -163,9 +164,44 @@ def run_update(ck_ob, mod, label):
 
     def c(rule, cond, construct, ok, bad, where=None):
         return ck_ob(cond, rule, f.name, "%s[%s]" % (construct, label), ok, bad, where or where0)
+    for k_ in [k_ for k_ in AUXPHIS if k_[0] == f.name]:
+        del AUXPHIS[k_]
     ex = make_exec(f, starts=posn_starts())
     paths = ex.run(max_paths=3000)
     no_data_branches(f, paths)
+    # a block loop that also tops up the buffer in its first round (helper integers - the position to copy to, the amount to take - that are
+    # special in the first iteration and constant afterwards): the first iteration is made part of the entry path (peeled) and the generic
+    # iteration is evaluated with the steady values, which must then be what every iteration hands on
+    for l in f.loops:
+        if l.get("parent", -1) != -1:
+            continue
+        h_ = l["header"]
+        ph_ = [f.insts[i] for i in f.blocks[h_].insts if f.insts[i].op == "phi"]
+        ints_ = [I for I in ph_ if not (I.get("ty") or "").endswith("*")]
+        if len(ints_) <= 1 or not any(p_.end[0] == "loop-entry" and p_.end[1] == h_ for p_ in paths):
+            continue
+        ex2 = make_exec(f, starts=posn_starts(), peel={h_})
+        p2 = ex2.run(max_paths=3000)
+        ent = [p_ for p_ in p2 if p_.end[0] == "loop-entry" and p_.end[1] == h_]
+        hc = {}
+        for I in ints_:
+            vals = {repr(p_.env.get(("init", I.id))) for p_ in ent}
+            v0 = ent[0].env.get(("init", I.id)) if ent else None
+            if len(vals) == 1 and v0 is not None and not is_word(v0) and v0.const() is not None:
+                hc[I.id] = v0.const()
+        if len(hc) != len(ints_) - 1:
+            continue        # not this shape: the per-class rule below says what it does not recognise
+        ex = make_exec(f, starts=posn_starts(), peel={h_}, head_consts=hc)
+        paths = ex.run(max_paths=3000)
+        no_data_branches(f, paths)
+        for p_ in paths:
+            if p_.end[0] == "backedge" and p_.end[1] == h_:
+                for pid, v_ in hc.items():
+                    bv = p_.env.get(("back", pid))
+                    if bv is None or is_word(bv) or ex.subst(p_, bv).const() != v_:
+                        raise Broken("tinyjambu_hash_update: a helper integer carried by the block loop does not keep its steady value %d (it becomes %s): unrecognised shape" % (v_, bv))
+        AUXPHIS[(f.name, h_)] = set(hc)
+        break
     # whole-block loops: the top-level loops carrying one input cursor and one remaining length (inner loops with a
     # decided trip count are followed by the executor; several alternative block loops, e.g. per alignment class, are allowed)
     tops = {}
@@ -175,6 +211,7 @@ def run_update(ck_ob, mod, label):
         hdr_ = l["header"]
         ptrs_ = [f.insts[i] for i in f.blocks[hdr_].insts if f.insts[i].op == "phi" and (f.insts[i].get("ty") or "").endswith("*")]
         ints_ = [f.insts[i] for i in f.blocks[hdr_].insts if f.insts[i].op == "phi" and not (f.insts[i].get("ty") or "").endswith("*")]
+        ints_ = [I for I in ints_ if I.id not in AUXPHIS.get((f.name, hdr_), ())]
         ended = any(p_.end[0] in ("loop-entry", "backedge") and p_.end[1] == hdr_ for p_ in paths)
         if not ended:
             continue        # a helper loop with a decided trip count (followed by the executor), e.g. inside an inlined compression function
